@@ -109,5 +109,25 @@ def run (s : TreeSet) : List (Spec.OrdSet.Op × List Bool) → Mem → List Out 
     let rs := run r.2.1 rest r.2.2.1
     (r.1 :: rs.1, (s.size, r.2.2.2) :: rs.2.1, rs.2.2)
 
+/-- a session: histories of set calls interleaved with iterator sessions, each on a fresh iterator -/
+def runSession (s : TreeSet) : List Spec.OrdSet.Segment → Mem → List (List Out) × TreeSet × Mem
+  | [], m => ([], s, m)
+  | .calls ops :: rest, m =>
+    let r := s.run cmp ops m
+    let rs := runSession r.2.2.1 rest r.2.2.2
+    (r.1 :: rs.1, rs.2)
+  | .iterate prog :: rest, m =>
+    let r := s.iterRun cmp s.iterInit prog m
+    let rs := runSession r.2.1 rest r.2.2.2
+    (r.1 :: rs.1, rs.2)
+
+/-- every iterator session respects the precondition of `iter_remove` -/
+def SessionValid (s : TreeSet) : List Spec.OrdSet.Segment → Mem → Prop
+  | [], _ => True
+  | .calls ops :: rest, m => SessionValid (s.run cmp ops m).2.2.1 rest (s.run cmp ops m).2.2.2
+  | .iterate prog :: rest, m =>
+    TreeTable.IterValid cmp s.t s.iterInit prog m ∧
+    SessionValid (s.iterRun cmp s.iterInit prog m).2.1 rest (s.iterRun cmp s.iterInit prog m).2.2.2
+
 end TreeSet
 end CC
